@@ -169,4 +169,5 @@ func init() {
 	share("C19", "C19.12", "C10.1", "duplicate deliveries of a log entry change nothing: merge is last-writer-wins")
 	share("C20", "C20.12", "C08.1", "each integration's chain is wait, dedup, retry, set-notifies in this order")
 	share("C13", "C13.11", "C01.5", "what the provider stores is what was put: the store refuses a write only when destroyed (or limited), never because of the alert's own timestamps")
+	share("C06", "C06.19", "C05.3", "a group disappears only when it is empty: the store is marked destroyed only if no alert is left after removing the notified resolved ones")
 }
